@@ -333,8 +333,10 @@ func tailStr(s string, n int) string {
 	return s[len(s)-n:]
 }
 
-// Run executes the cases on `par` workers and calls sink for every result (serialised).
-func (p *Pool) Run(reqs []*Req, par int, sink func(*Result)) error {
+// Run executes the cases on `par` workers and calls sink for every result
+// (serialised).  skip, if not nil, is asked (under the same lock) before a
+// case is handed out.
+func (p *Pool) Run(reqs []*Req, par int, sink func(*Result), skip func(*Req) bool) error {
 	if par < 1 {
 		par = 1
 	}
@@ -363,9 +365,13 @@ func (p *Pool) Run(reqs []*Req, par int, sink func(*Result)) error {
 	for _, r := range reqs {
 		mu.Lock()
 		stop := first != nil
+		skipped := !stop && skip != nil && skip(r)
 		mu.Unlock()
 		if stop {
 			break
+		}
+		if skipped {
+			continue
 		}
 		jobs <- r
 	}
